@@ -59,6 +59,8 @@ func (c *Ctx) Script(sel map[int]bool) string {
 	b.WriteString("(assert (= (rroot rnil) rnil))\n")
 	b.WriteString("(assert (forall ((a Ref)) (! (or ((_ is robj) (rroot a)) (= (rroot a) rnil)) :pattern ((rroot a)))))\n")
 	b.WriteString("(assert (forall ((a Ref)) (! (=> ((_ is robj) a) (= (rroot a) a)) :pattern ((rroot a)))))\n")
+	b.WriteString("(declare-fun selem (Slice Int) Ref)\n")
+	b.WriteString("(assert (forall ((s Slice) (i Int)) (! (= (selem s i) (ridx (sarr s) (+ (soff s) i))) :pattern ((selem s i)))))\n")
 	b.WriteString(c.declareInitialHeaps())
 	if _, ok := c.R.heaps[HAlloc]; ok {
 		b.WriteString("(assert (not (select Alloc_0 rnil)))\n")
